@@ -299,6 +299,39 @@ fn print_tile_ids(a: &[String]) -> Result<bool> {
 	Ok(false)
 }
 
+// D6 / C02: a versatiles container covering only part of a level; the stream of a box that reaches into 256-blocks the container
+// does not have must finish and deliver exactly the lookups
+#[derive(Debug)]
+struct PartReader { parameters: TilesReaderParameters, tilejson: TileJSON }
+#[async_trait]
+impl TilesReaderTrait for PartReader {
+	fn get_source_name(&self) -> &str { "part" }
+	fn get_container_name(&self) -> &str { "replay" }
+	fn get_parameters(&self) -> &TilesReaderParameters { &self.parameters }
+	fn override_compression(&mut self, c: TileCompression) { self.parameters.tile_compression = c; }
+	fn get_tilejson(&self) -> &TileJSON { &self.tilejson }
+	async fn get_tile_data(&self, coord: &TileCoord3) -> Result<Option<Blob>> {
+		Ok(if self.parameters.bbox_pyramid.contains_coord(coord) { Some(Blob::from(vec![coord.z, coord.x as u8, coord.y as u8, (coord.x >> 8) as u8, (coord.y >> 8) as u8])) } else { None })
+	}
+}
+async fn versatiles_stream_beyond_coverage(a: &[String]) -> Result<bool> {
+	use versatiles_container::{TilesWriterTrait, VersaTilesReader, VersaTilesWriter};
+	// container: level 9, tiles [0,0,3,3] (one block); request: args x0 y0 x1 y1 at level 9
+	let (x0, y0, x1, y1): (u32, u32, u32, u32) = (arg(a, 0), arg(a, 1), arg(a, 2), arg(a, 3));
+	let mut pyramid = TileBBoxPyramid::new_empty();
+	pyramid.set_level_bbox(TileBBox::new(9, 0, 0, 3, 3)?);
+	let mut source = PartReader { parameters: TilesReaderParameters::new(TileFormat::BIN, TileCompression::Uncompressed, pyramid), tilejson: TileJSON::default() };
+	let mut writer = versatiles_core::io::DataWriterBlob::new()?;
+	VersaTilesWriter::write_to_writer(&mut source, &mut writer).await?;
+	let reader = VersaTilesReader::open_reader(Box::new(writer.to_reader())).await?;
+	let bbox = TileBBox::new(9, x0, y0, x1, y1)?;
+	let mut expected = 0usize;
+	for c in bbox.iter_coords() { if reader.get_tile_data(&c).await?.is_some() { expected += 1; } }
+	let streamed = reader.get_bbox_tile_stream(bbox.clone()).await.collect().await;
+	println!("box {bbox:?}: lookups deliver {expected} tiles, the stream {}", streamed.len());
+	Ok(streamed.len() != expected)
+}
+
 fn main() -> Result<()> {
 	let args: Vec<String> = std::env::args().skip(1).collect();
 	if args.is_empty() { eprintln!("usage: verif_replay <case> args…"); std::process::exit(2); }
@@ -315,6 +348,7 @@ fn main() -> Result<()> {
 			"versatiles_short_tile_index" => rt.block_on(versatiles_short_tile_index(rest)),
 			"pmtiles_entry_offset_overflow" => rt.block_on(pmtiles_entry_offset_overflow(rest)),
 			"svarint_roundtrip" => svarint_roundtrip(rest),
+			"versatiles_stream_beyond_coverage" => rt.block_on(versatiles_stream_beyond_coverage(rest)),
 			"pmtiles_run_coverage" => rt.block_on(pmtiles_run_coverage(rest)),
 			"print_tile_ids" => print_tile_ids(rest),
 			"mbtiles_extreme_values" => mbtiles_extreme_values(rest),
